@@ -1,4 +1,4 @@
-REPO_COMMITS = ["0e45a8e", "f51d74e", "e08c0a5"]
+REPO_COMMITS = ["0e45a8e", "f51d74e", "e08c0a5", "7c6f8e4", "33cf0bf"]
 NOT_APPLICABLE = {}
 CHECKS = {
  "C05": dict(
@@ -13,4 +13,8 @@ CHECKS = {
   text="Held-on-what-was-observed: wrappers on wmom, wmedian, sigma_clip, interplin, get_stats, cov2cor and cor2cov judge every observed call by direct long-double recomputation; sigma clipping by re-running the stated strict-threshold iteration, including a dyadic family whose data sit exactly on the threshold (exactness established with rationals) so that < versus <= is decidable.",
   note="Trusts numpy long double arithmetic and searchsorted. Clipping and weighted-median cases within rounding of their decision threshold are skipped and counted.",
   technique="API-boundary monitor with direct-definition oracle; executable model of the clipping iteration"),
+ "C17": dict(
+  text="Held-on-what-was-observed: a wrapper on gauleg checks every observed rule (also those computed inside QGauss/QGauss2) for interior, monotone, symmetric abscissae, signed symmetric weights summing to b-a, agreement with numpy's leggauss and exactness on random polynomials up to degree 2n-1 (long-double Horner); wrappers on QGauss.integrate_func/integrate_data and QGauss2.integrate_func compare each result of a per-object call history with the weighted sum formed from the reference rule for the point count then in effect. n = 1..200 is enumerated.",
+  note="Trusts numpy.polynomial.legendre.leggauss and long-double arithmetic. Integrator comparison allows the 1e-9 band of the statement scaled by max|f| and max|f'|.",
+  technique="API-boundary monitor with reference-rule oracle; per-object call histories judged against fresh reference rules; ASan+UBSan replay"),
 }
